@@ -19,7 +19,7 @@ RULE = ("Hypothesis-generated watcher configurations (1-6 watchers on two instan
         "nested containers/dict key order); oracle A = reference dispatcher, exact trace equality; oracle B = clause "
         "predicates when a queued scripted watcher runs. Non-trivial = an assignment reaches >=2 watchers of different "
         "precedence, or a callback cascades, or an equal-but-not-identical value meets a changes-only watcher, or a "
-        "watcher is re-registered; distinct = case hash.")
+        "watcher is re-registered; distinct = case hash. The parameter c may be declared per_instance=False (one Parameter object for the class and all instances, with class- and instance-level watchers of it side by side and one of them removed); the enumerated table also assigns the identical object twice (a NaN is not equal to itself) by attribute and update, on an instance and on the class.")
 ASSUMPTIONS = [
     "equality for changes-only filtering is Python == on the stated value pool (numbers, str, bytes, None, dates, "
     "same-type containers of these); no sets, no user-defined __eq__, no NaN nested in containers",
